@@ -536,6 +536,38 @@ def run_case(ctx, i, rng):
                 ctx.violation("accepts-mutant:%s:%s" % (mut.__name__[2:], order), "compare() returned normally although %s (%s) | %s" % (desc, order, st))
             elif not isinstance(ex, AssertionError):
                 ctx.count("rejected_by:%s" % type(ex).__name__)
+    if i % 3 == 1:
+        # a netlist need not have a top instance (a library-only netlist): element counts are compared all the same
+        a2, _ = rebuild(n)
+        b2, _ = rebuild(n)
+        a2.top_instance = None
+        b2.top_instance = None
+        ex = run_compare(a2, b2)
+        ctx.count("positive_compares")
+        if ex is not None:
+            ctx.violation("rejects-faithful-copy:no-top-instance", "compare(two rebuilds, top instance unset) raised %s: %s | %s" % (
+                type(ex).__name__, str(ex)[:120], st))
+            return
+        for what in ("library added", "unused library dropped", "definition added"):
+            b2, _ = rebuild(n)
+            b2.top_instance = None
+            if what == "library added":
+                b2.create_library("extra_lib")
+            elif what == "definition added":
+                rng.choice(list(b2.libraries)).create_definition("extra_def")
+            else:
+                used = set(id(c.reference.library) for d_ in defs_of(b2) for c in d_.children if c.reference is not None)
+                ls = [l for l in b2.libraries if id(l) not in used]
+                if not ls:
+                    continue
+                b2.remove_library(rng.choice(ls))
+            for x, y, order in ((a2, b2, "original-first"), (b2, a2, "mutant-first")):
+                ex = run_compare(x, y)
+                ctx.count("mutants_compared")
+                ctx.count("mutants_compared_without_top_instance")
+                if ex is None:
+                    ctx.violation("accepts-mutant:no-top-instance:%s:%s" % (what.replace(" ", "-"), order),
+                                  "compare() returned normally although %s (neither netlist has a top instance; %s) | %s" % (what, order, st))
     ctx.fingerprint((st,), kinds >= 12)
     if i < 2:
         ctx.sample({"shape": st, "mutation_kinds_applied": kinds})
